@@ -164,11 +164,13 @@ type subject struct {
 	Subj  string   // cache key
 	Fns   []string // functions applicable
 	Ins   []string // optional: variants of the input sharing the cache key (one is drawn per query)
+	Rel   []string // configuration entries whose height can change the answer for this input
 }
 
 func genAddress(r *rand.Rand) subject {
 	mk := func(class, in string) subject {
-		return subject{Class: "addr/" + class, In: in, Subj: "addr:" + in, Fns: []string{"addrCheck", "dappCheck"}}
+		return subject{Class: "addr/" + class, In: in, Subj: "addr:" + in, Fns: []string{"addrCheck", "dappCheck"},
+			Rel: []string{"addr:eth", "addr:btcMultiSign", "addr:utxo", "fork:ForkMultiSignAddress", "fork:ForkBase58AddressCheck"}}
 	}
 	hexAddr := func() string { return hex.EncodeToString(randBytes(r, 20)) }
 	switch r.Intn(16) {
@@ -240,7 +242,8 @@ func genPubkey(r *rand.Rand) subject {
 	}
 	// the same key is converted by different address drivers within one history (the caches are per driver)
 	h := hex.EncodeToString(pub)
-	return subject{Class: "pub/" + class, In: "2:" + h, Ins: []string{"0:" + h, "1:" + h, "2:" + h, "2:" + h}, Subj: "pub:" + h, Fns: []string{"pub2addr"}}
+	return subject{Class: "pub/" + class, In: "2:" + h, Ins: []string{"0:" + h, "1:" + h, "2:" + h, "2:" + h}, Subj: "pub:" + h, Fns: []string{"pub2addr"},
+		Rel: []string{"fork:ForkFormatAddressKey"}}
 }
 
 var signTypes = map[string]int32{"secp256k1": 1, "ed25519": 2, "secp256k1eth": 260}
@@ -253,7 +256,7 @@ func genTx(r *rand.Rand) subject {
 		Fee: 100000, Nonce: r.Int63(), To: b58addr(0, randBytes(r, 20), true), ChainID: 0}
 	tx.Sign(types.EncodeSignID(signTypes[name], addrID), priv)
 	class := "valid"
-	switch r.Intn(4) {
+	switch r.Intn(5) {
 	case 0:
 		tx.Payload = append(tx.Payload, 1)
 		class = "payload_tampered"
@@ -263,7 +266,8 @@ func genTx(r *rand.Rand) subject {
 	}
 	enc := hex.EncodeToString(types.Encode(tx))
 	return subject{Class: fmt.Sprintf("tx/%s/%s/addr%d", name, class, addrID), In: enc,
-		Subj: "pub:" + hex.EncodeToString(tx.Signature.Pubkey), Fns: []string{"checkSign", "txFrom"}}
+		Subj: "pub:" + hex.EncodeToString(tx.Signature.Pubkey), Fns: []string{"checkSign", "checkSign", "txFrom"},
+		Rel: []string{"crypto:" + name, "fork:ForkFormatAddressKey"}}
 }
 
 func pick(r *rand.Rand, zero, neg int, lo, hi int64) int64 {
@@ -286,9 +290,7 @@ func genCfg(r *rand.Rand) Cfg {
 		c.AddrEnable["utxo"] = pick(r, 2, 2, 20, 900)
 	}
 	c.CryptoEnable["secp256k1eth"] = pick(r, 2, 1, 20, 900)
-	if r.Intn(2) == 0 {
-		c.CryptoEnable["ed25519"] = pick(r, 3, 1, 20, 900)
-	}
+	c.CryptoEnable["ed25519"] = pick(r, 3, 1, 20, 900)
 	c.Forks["ForkMultiSignAddress"] = pick(r, 2, 0, 20, 900)
 	c.Forks["ForkBase58AddressCheck"] = pick(r, 2, 0, 20, 900)
 	c.Forks["ForkFormatAddressKey"] = pick(r, 2, 0, 20, 900)
@@ -309,12 +311,24 @@ func (c Cfg) boundaries() []int64 {
 	return out
 }
 
-func (c Cfg) heights(fn string) []int64 {
+// heights: candidate heights for a query - "no height context" (-1, address.CheckAddress only), 0, 1, far future, and
+// b-1, b, b+7 around every positive boundary b; rel restricts the boundaries to the listed configuration entries.
+func (c Cfg) heights(fn string, rel []string) []int64 {
 	hs := []int64{0, 1, 2000000}
 	if fn == "addrCheck" {
 		hs = append(hs, -1) // "pass -1 if there is no block height context" (rpc, wallet)
 	}
-	for _, b := range c.boundaries() {
+	bs := c.boundaries()
+	if rel != nil {
+		bs = nil
+		for _, k := range rel {
+			m := map[string]map[string]int64{"addr": c.AddrEnable, "crypto": c.CryptoEnable, "fork": c.Forks}[k[:strings.IndexByte(k, ':')]]
+			if v := m[k[strings.IndexByte(k, ':')+1:]]; v > 0 {
+				bs = append(bs, v)
+			}
+		}
+	}
+	for _, b := range bs {
 		hs = append(hs, b-1, b, b+7)
 	}
 	return hs
@@ -349,7 +363,11 @@ func genHistory(r *rand.Rand, cfg Cfg, nQueries int) (qs []Query, classes []stri
 		seen := map[string]bool{}
 		for i, n := 0, 2+r.Intn(4); i < n; i++ {
 			fn := s.Fns[r.Intn(len(s.Fns))]
-			hs := cfg.heights(fn)
+			rel := s.Rel // mostly heights around the boundaries that matter for this input, sometimes any boundary
+			if r.Intn(4) == 0 {
+				rel = nil
+			}
+			hs := cfg.heights(fn, rel)
 			in := s.In
 			if len(s.Ins) > 0 {
 				in = s.Ins[r.Intn(len(s.Ins))]
@@ -661,6 +679,22 @@ func TestGenHistories(t *testing.T) {
 					if isAddrFn(q.Fn) && len(verdictSet(g.cfg, g.drv[q.In], q.H)) >= 2 {
 						ambiguous = true
 					}
+				}
+				// measured sensitivity: the history asks one (function, input) at two heights whose fresh answers differ,
+				// i.e. a height-ignoring memo on that function would be visible in this history
+				first := map[string]string{}
+				changes := map[string]bool{}
+				for _, q := range run {
+					if f := g.fresh[q.key()]; len(f) > 0 {
+						k := q.Fn + "|" + q.In
+						if prev, ok := first[k]; ok && prev != f[0] {
+							changes[q.Fn] = true
+						}
+						first[k] = f[0]
+					}
+				}
+				for fn := range changes {
+					lib.Class("history/answer_changes_with_height/" + fn)
 				}
 				if straddle {
 					lib.Class("history/same_input_across_boundary")
